@@ -50,7 +50,7 @@ func dirsrcDriver(args []string) (*Summary, error) {
 		s.Cases++
 		bad, good := 0, 0
 		for _, e := range c.Entries {
-			if e.Kind == "good" {
+			if e.Kind == "good" || e.Kind == "goodT" || e.Kind == "goodR" {
 				good++
 			} else {
 				bad++
